@@ -27,6 +27,8 @@ type Script struct {
 	// Grp: scripts with the same non-empty group (and configuration) run in this order on one
 	// gateway instance and are never split over instances (re-execution with history)
 	Grp string `json:"grp,omitempty"`
+	// DupIn (legacy): see OpenOpts.DupIn
+	DupIn bool `json:"dupIn,omitempty"`
 	// Job / Pos: the instance (job) the script ran on and its position there (set by the runner)
 	Job int `json:"-"`
 	Pos int `json:"-"`
@@ -365,6 +367,7 @@ func (ps *ProtoSession) Open() error {
 			oo.Headers = append(oo.Headers, [2]string{"Cookie", ps.I.lastMintCookies})
 		}
 	}
+	oo.DupIn = s.DupIn
 	t, rep, err := ps.I.Open(oo)
 	if err != nil {
 		return fmt.Errorf("open: %w", err)
@@ -374,6 +377,29 @@ func (ps *ProtoSession) Open() error {
 	}
 	ps.T = t
 	return nil
+}
+
+// secondIn: when the gateway accepted a second RDG_IN_DATA connection for this tunnel (DupIn), a whole session is sent
+// on it as well after the script's own steps; what the gateway makes of it shows in its hook log (Lifecycle).
+func (ps *ProtoSession) secondIn() {
+	t := ps.T
+	if t == nil || t.In2 == nil {
+		return
+	}
+	t.In2.WriteChunk(make([]byte, 100))
+	time.Sleep(30 * time.Millisecond)
+	for _, st := range ps.S.Steps {
+		k := str(st, "k", "")
+		if k == "idle" || k == "hostsend" {
+			continue
+		}
+		if pkt, _, err := ps.PC.Build(st); err == nil {
+			if t.In2.WriteChunk(pkt) != nil {
+				return
+			}
+			time.Sleep(40 * time.Millisecond)
+		}
+	}
 }
 
 // Step executes step k of the script and records the gateway's reaction.
@@ -478,6 +504,9 @@ func (i *Inst) RunProto(s Script, tw *TraceWriter, rng *rand.Rand) error {
 			if _, err = ps.Step(k); err != nil {
 				break
 			}
+		}
+		if err == nil {
+			ps.secondIn()
 		}
 	}
 	ps.Finish()
